@@ -161,7 +161,12 @@ func Id(name string, k int) string {
 }
 
 // IdName is the concrete name of candidate i (i >= 1) of the identifier family.
-func IdName(i int) string { return fmt.Sprintf("zzid%d", i) }
+func IdName(i int) string {
+	if i == 4 {
+		return "ZZID1" // the first identifier in another letter case: identifiers are compared exactly
+	}
+	return fmt.Sprintf("zzid%d", i)
+}
 
 func Assume(c bool) {
 	if !c {
